@@ -43,6 +43,8 @@ FIELD_RTOL = 1e-12    # D1 vs D2, non-workspace fields (DESIGN C10)
 SERIAL_KINDS = ("SOLUTION", "EXCHANGE", "GAS_PHASE", "KINETICS", "EQUILIBRIUM_PHASES", "SOLID_SOLUTIONS", "SURFACE",
                 "REACTION_TEMPERATURE", "REACTION_PRESSURE")
 DUMP = "DUMP\n -all\nEND\n"
+# an unrelated initial-solution calculation: leaves the reaction state of the cells alone, changes the solver's history
+NOISE_SIM = "SOLUTION 7777\n units mol/kgw\n pH 7\n Na 0.1\n Cl 0.1\nEND\n"
 
 
 # known finding: Phreeqc::InternalCopy shares the Pitzer/SIT parameter objects with the source and keeps their species-name
@@ -614,6 +616,10 @@ def _check(case, ctx, inst):
                 raise Violation("serializer", "%s %d after Serialize->Deserialize: %s" % (
                     key[0], key[1], first_diff(want.get(key, "<absent>"), got.get(key, "<absent>"))))
 
+    # a second Serializer copy, taken before the original is used, serves as the noisy replica of that route
+    S2 = inst()
+    A.serialize_into(S2, 0, nmax)
+
     # follow-up on the original
     TA, errA = run_follow(A, case)
     if TA is None:
@@ -655,79 +661,70 @@ def _check(case, ctx, inst):
 
     poised = redox in ("inert", "o2")
     stats = {}
+    cols = case["cols"]
+    fp = "follow_p" if case.get("follow_p") else "follow"   # hand-written replays may come without the perturbed follow-up
     if TA.rows < 2:
         # nothing reacts in this cell (a solution without reactants): the follow-up punches no row
         classes.append("followup_without_rows")
-        poised = False
-    if poised:
-        # (3) follow-up on the text-restored (+ storage-bin round-tripped) state
-        TB, errB = run_follow(B, case)
-        if TB is None and not_converged(errB):
-            # a numerical failure is outside the property's domain (DESIGN section 4 rule 1), whichever copy it hits
-            classes.append("followup_restored_not_converged")
-            poised = False
-        elif TB is None:
-            raise Violation("follow_restored", "the follow-up runs on the original but is rejected on the restored state: %s" % errB[:400])
-    if poised:
-        # conditioning guard: the same follow-up on a copy restored from the dump with +-3e-13 relative noise
-        Bp = inst()
-        TBp = None
-        if Bp.run_string(perturb(D1)) == 0:
-            TBp, _e = run_follow(Bp, case)
-        ok_b = well_conditioned(TB, TBp, case["cols"], redox)
-        # ... and on a replica of the original (same history) whose solution amounts are scaled by 1 +- 3e-13 through a MIX
-        ok_a = not case.get("follow_p")      # hand-written replays may come without the perturbed follow-up
-        if case.get("follow_p"):
-            Ap = inst()
-            if all(Ap.run_string(s) == 0 for s in case["sims"]):
-                TAp, _e = run_follow(Ap, case, "follow_p")
-                ok_a = well_conditioned(TA, TAp, case["cols"], redox)
-        if not (ok_a and ok_b):
-            classes.append("followup_not_compared_ill_conditioned" + ("" if ok_b else "_restored_side") + ("" if ok_a else "_original_side"))
-            poised = False
-    if poised:
-        compare_tables(TA, TB, case["cols"], redox, "follow_restored", stats)
-        # (5c) follow-up on the Serializer copy (+ MIX / REACTION, which the Serializer does not carry, from the dump text)
+    elif not poised:
+        classes.append("followup_not_compared_unpoised")
+    else:
+        # Stability guard (DESIGN section 4 rule 7, extended from redox to every kind of ill-conditioning): each route is
+        # judged only when the follow-up is reproducible under noise of the size the route legitimately introduces -
+        # amounts changed by +-3e-13 relative (30x the rounding of the 14-digit text) and another solver history (an
+        # unrelated initial-solution calculation first).  The noisy replica of the original is a second instance that
+        # ran the same history; its amounts are perturbed through a MIX in the input language, not through the dump.
+        Ap = inst()
+        TAp = None
+        if all(Ap.run_string(s) == 0 for s in case["sims"]) and Ap.run_string(NOISE_SIM) == 0:
+            TAp, _e = run_follow(Ap, case, fp)
+        ok_a = well_conditioned(TA, TAp, cols, redox) or fp == "follow" and TAp is not None and TAp.rows == TA.rows
+        if not ok_a:
+            classes.append("followup_not_compared_original_not_reproducible_under_noise")
         extra = block_text(D1, lambda k, n: k in ("MIX", "REACTION"))
+
+        def route(name, I, Ip, prepared_p):
+            """follow-up on the restored copy I, judged against the original when its noisy replica Ip agrees with it"""
+            T, err = run_follow(I, case)
+            if T is None and not_converged(err):
+                # a numerical failure is outside the property's domain (DESIGN section 4 rule 1), whichever copy it hits
+                classes.append("followup_%s_not_converged" % name)
+                return
+            if T is None:
+                raise Violation("follow_" + name, "the follow-up runs on the original but is rejected on the %s copy: %s" % (name, err[:400]))
+            Tp = None
+            if prepared_p and Ip.run_string(NOISE_SIM) == 0:
+                Tp, _e = run_follow(Ip, case, fp)
+            if not ok_a:
+                return
+            if not well_conditioned(T, Tp, cols, redox):
+                classes.append("followup_%s_not_compared_not_reproducible_under_noise" % name)
+                return
+            compare_tables(TA, T, cols, redox, "follow_" + name, stats)
+            classes.append("followup_%s_compared" % name)
+
+        # (3) text-restored (+ storage-bin round-tripped) state; replica: restored from the perturbed dump
+        Bp = inst()
+        route("restored", B, Bp, Bp.run_string(perturb(D1)) == 0)
+        # (5c) Serializer copy (+ MIX / REACTION, which the Serializer does not carry, from the dump text)
+        okx = True
         if extra.strip():
             if S.run_string(extra + "END\n") != 0:
                 raise Violation("read_errors", "reading MIX/REACTION blocks gave errors: %s" % S.errors()[:400])
-        TS, errS = run_follow(S, case)
-        if TS is None and not_converged(errS):
-            classes.append("followup_serializer_not_converged")
-        elif TS is None:
-            raise Violation("follow_serializer", "the follow-up is rejected on the Serializer copy: %s" % errS[:400])
-        else:
-            compare_tables(TA, TS, case["cols"], redox, "follow_serializer", stats)
-        # (4) SOLUTION_MODIFY with totals, total_h, total_o, cb only
-        E = inst()
-        place, restore = modify_input(D1, P1)
-        if not P1:
-            pass
-        elif E.run_string(place) != 0:
-            ctx.event("modify_leg_placeholder_error")
-        else:
-            rc = E.run_string(restore)
-            if rc != 0 or E.errors().strip():
-                raise Violation("read_errors", "SOLUTION_MODIFY / RAW restore gave errors: %s" % E.errors()[:600])
-            TE, errE = run_follow(E, case)
-            # the same leg from a placeholder with other starting estimates (pH 5, pe 8): when the two disagree, the
-            # solver's answer depends on its starting point and the leg cannot be judged
-            E2 = inst()
+            okx = S2.run_string(extra + "END\n") == 0
+        route("serializer", S, S2, okx)
+        # (4) SOLUTION_MODIFY with totals, total_h, total_o, cb only; replica: placeholder with other starting estimates
+        if P1:
+            E, E2 = inst(), inst()
+            place, restore = modify_input(D1, P1)
             place2, restore2 = modify_input(D1, P1, "\n pH 5\n pe 8")
-            TE2 = None
-            if E2.run_string(place2) == 0 and E2.run_string(restore2) == 0:
-                TE2, _e = run_follow(E2, case)
-            if TE is None:
-                ctx.event("modify_leg_not_converged")     # starts from pure-water estimates: not a property violation
-            elif not well_conditioned(TE, TE2, case["cols"], redox):
-                classes.append("modify_leg_not_compared_depends_on_starting_estimates")
+            if E.run_string(place) != 0:
+                ctx.event("modify_leg_placeholder_error")
             else:
-                compare_tables(TA, TE, case["cols"], redox, "follow_solution_modify", stats)
-                classes.append("modify_leg_compared")
-        classes.append("followup_compared")
-    elif redox not in ("inert", "o2") and TA.rows >= 2:
-        classes.append("followup_not_compared_unpoised")
+                rc = E.run_string(restore)
+                if rc != 0 or E.errors().strip():
+                    raise Violation("read_errors", "SOLUTION_MODIFY / RAW restore gave errors: %s" % E.errors()[:600])
+                route("solution_modify", E, E2, E2.run_string(place2) == 0 and E2.run_string(restore2) == 0)
     for k in [k for k in stats if k.startswith("SOFT ")]:
         classes.append(k)
         del stats[k]
